@@ -283,12 +283,17 @@ pub fn scientific(sci: &(Base,Exponent)) -> Value {
   let b = part.chars.iter().collect::<String>();
   let c = exp_whole.chars.iter().collect::<String>();
   let d = exp_part.chars.iter().collect::<String>();
-  let num_f64: f64 = format!("{}.{}",a,b).parse::<f64>().unwrap();
-  let mut exp_f64: f64 = format!("{}.{}",c,d).parse::<f64>().unwrap();
-  if *sign {
-    exp_f64 = -exp_f64;
-  }
-  let num = num_f64 * 10f64.powf(exp_f64);
+  // An integer exponent is read as one decimal literal, so the result is the nearest f64
+  let num = if d.is_empty() {
+    format!("{}.{}e{}{}",a,b,if *sign { "-" } else { "" },c).parse::<f64>().unwrap()
+  } else {
+    let num_f64: f64 = format!("{}.{}",a,b).parse::<f64>().unwrap();
+    let mut exp_f64: f64 = format!("{}.{}",c,d).parse::<f64>().unwrap();
+    if *sign {
+      exp_f64 = -exp_f64;
+    }
+    num_f64 * 10f64.powf(exp_f64)
+  };
   Value::F64(Ref::new(num))
 }
 
